@@ -301,6 +301,66 @@ fn h_transactions<S: Src, const TOTAL: usize, const B: usize, const POS: usize, 
     s.reach();
 }
 
+// nested transactions (the parsers nest them: decode_macroblock -> decode_dquant / decode_motion_vector, decode_picture -> field parsers):
+// an inner transaction that SUCCEEDS inside an outer one that fails / yields None / is a look-ahead must not make its reads permanent
+fn h_nested<S: Src, const TOTAL: usize, const B: usize, const POS: usize, const N1: usize, const N2: usize>(s: &mut S) {
+    let all: [u8; MAXB] = s.arr();
+    let fits = POS + N1 + N2 <= TOTAL * 8;
+    let mut kind = 0;
+    while kind < 4 {
+        let mut r = mk(&all, TOTAL, B, POS);
+        // kind 0: outer with_transaction fails after the inner success; 1: outer union yields None; 2: outer look-ahead; 3: outer succeeds
+        let res: Result<Option<(u32, u32)>> = match kind {
+            0 => r.with_transaction(|r| {
+                let a: u32 = r.with_transaction(|r2| r2.read_bits(N1 as u32))?;
+                let _b: u32 = r.read_bits(N2 as u32)?;
+                let _ = a;
+                Err(Error::InvalidBitstream)
+            }),
+            1 => r.with_transaction_union(|r| {
+                let _a: u32 = r.with_transaction(|r2| r2.read_bits(N1 as u32))?;
+                let _b: u32 = r.read_bits(N2 as u32)?;
+                Ok(None)
+            }),
+            2 => r.with_lookahead(|r| {
+                let a: u32 = r.with_transaction(|r2| r2.read_bits(N1 as u32))?;
+                let b: u32 = r.read_bits(N2 as u32)?;
+                Ok(Some((a, b)))
+            }),
+            _ => r.with_transaction(|r| {
+                let a: u32 = r.with_transaction(|r2| r2.read_bits(N1 as u32))?;
+                let b: u32 = r.read_bits(N2 as u32)?;
+                Ok(Some((a, b)))
+            }),
+        };
+        match res {
+            Ok(Some((a, b))) => {
+                chk!(s, fits && kind >= 2 && a as u64 == model_bits(&all, POS, N1) && b as u64 == model_bits(&all, POS + N1, N2), "reader.nested.values: the inner transaction and the following read deliver consecutive bits");
+                chk!(s, r.bits_read == if kind == 2 { POS } else { POS + N1 + N2 }, "reader.nested.ok_pos: an outer look-ahead consumes nothing, an outer success keeps both reads");
+            }
+            Ok(None) => chk!(s, fits && kind == 1 && r.bits_read == POS, "reader.nested.none_pos: a union that yields None consumes nothing although its inner transaction succeeded"),
+            Err(e) => {
+                chk!(s, (!fits || kind == 0) && is_eof(&e) == !fits, "reader.nested.err_kind: the closure's own error (or end-of-data) is reported, not an internal error");
+                chk!(s, r.bits_read == POS, "reader.nested.err_pos: a failed outer transaction consumes nothing although its inner transaction succeeded");
+                core::mem::forget(e);
+            }
+        }
+        // whatever happened, the bits at the resulting position are still delivered
+        let p = r.bits_read;
+        if p == POS && POS + 8 <= TOTAL * 8 {
+            match r.read_bits::<u32>(8) {
+                Ok(v) => chk!(s, v as u64 == model_bits(&all, POS, 8), "reader.nested.redeliver: after the roll-back the same bits are delivered again"),
+                Err(e) => {
+                    chk!(s, false, "reader.nested.redeliver: after the roll-back the same bits are delivered again");
+                    core::mem::forget(e);
+                }
+            }
+        }
+        kind += 1;
+    }
+    s.reach();
+}
+
 // commit: drops exactly the consumed whole bytes; every bit from the position on is delivered afterwards, once, in order
 fn h_commit<S: Src, const TOTAL: usize, const B: usize, const POS: usize>(s: &mut S) {
     let all: [u8; MAXB] = s.arr();
